@@ -244,7 +244,9 @@ def resolve(vm, callee, subst):
     if ci.selfty is not None:
         head = type_head(ci.selfty)[0]
         vs = mir.src.enums.get(head)
-        if vs is not None and ci.method in vs and not mir.by_name.get(ci.method):
+        # a variant constructor used as a function: the crate may hold a constructor fn of the *same name for another enum*
+        # (InputDest::Some vs Option::Some) -- only a MIR fn of this very enum may take precedence over the built-in constructor
+        if vs is not None and ci.method in vs and not any(f.name.endswith(f'{head}::{ci.method}') for f in mir.by_name.get(ci.method, [])):
             idx = vs.index(ci.method)
             from .values import Adt
             return ('model', (lambda vm_, args, ci_, ty=head, idx=idx: Adt(ty, idx, list(args))), ci, f'{head}::{ci.method} (variant constructor)')
